@@ -112,7 +112,19 @@ def judgeEnc (define : Bool) (g : GraphVal) (topo : Except Nat (List Nat)) (r : 
           (match findOrder g (canon g) ct define w with
            | some o' => normW (collapseIface g (specWiring g define o')) == cw
            | none => false)
-        if kf then
+        -- recognise the known shape "definition renamed by a later export()": the output is the
+        -- designated one of the graph without the stale names of definitions
+        let g' := dropRenamedDefs g
+        let kfDef : Bool := !(renamedDefExports g).isEmpty &&
+          (normW (specWiring g' define others) == rw ||
+           (match findOrder g' (canon g') id define w with
+            | some o' => normW (specWiring g' define o') == rw
+            | none => false))
+        if kfDef then
+          some ("KF-definition-renamed-by-export: export-map names " ++
+            ", ".intercalate ((renamedDefExports g).map fun e => showStr e.1) ++
+            " of definitions are not exported :: " ++ diffWiring rw sw "impl" "spec")
+        else if kf then
           some ("KF-explicit-interface-import-merged: " ++ mergedImports g ++ " :: " ++ diffWiring rw sw "impl" "spec")
         else some ("wiring differs from the graph: " ++ diffWiring rw sw "impl" "spec")
       else none
@@ -131,7 +143,7 @@ def judgeEnc (define : Bool) (g : GraphVal) (topo : Except Nat (List Nat)) (r : 
       "MODEL\ttoposort model=" ++ showTopo mt ++ " impl=" ++
         (match topo with | .ok l => s!"ok{l}" | .error n => s!"cycle({n})")
     else
-      if !wfCheck g then "MODEL\tthe dumped graph is not well-formed (WF): satisfied sets / kinds / ids"
+      if !wfCheck (dropRenamedDefs g) then "MODEL\tthe dumped graph is not well-formed (WF): satisfied sets / kinds / ids"
       else
       match encode g o, r with
       | .ok sk, .ok w =>
@@ -140,7 +152,7 @@ def judgeEnc (define : Bool) (g : GraphVal) (topo : Except Nat (List Nat)) (r : 
         if mw != rw then "MODEL\twiring " ++ diffWiring rw mw "impl" "model"
         else
           -- third field (ignored by the runner): are the hypotheses of `wiring_encode_partial` met?
-          let hyp : String := match mt with
+          let hyp : String := if !wfCheck g then "0:renamed-definition" else match mt with
             | .ok ord => match aggOf g (ord.filter (isImportNode g)) with
               | some agg =>
                 if aggOkCheck g agg then "1"
